@@ -14,7 +14,7 @@ LEVEL = 'proof'
 HERE = os.path.dirname(os.path.abspath(__file__))
 SPEC = load_spec_module(os.path.join(HERE, '..', 'contracts', 'C02.py'), 'contracts.C02')
 BM = 'jesse.modes.backtest_mode'
-FUNCTIONS = ['jesse.store.state_orders.OrdersState.execute_pending_market_orders', 'jesse.services.candle.candle_includes_price', f'{BM}._get_executing_orders', f'{BM}._simulate_price_change_effect',
+FUNCTIONS = ['jesse.store.state_orders.OrdersState.execute_pending_market_orders', f'{BM}._execute_market_orders', 'jesse.services.candle.candle_includes_price', f'{BM}._get_executing_orders', f'{BM}._simulate_price_change_effect',
              f'{BM}._simulate_price_change_effect_multiple_candles', f'{BM}._sort_execution_orders', f'{BM}._step_simulator',
              f'{BM}._skip_simulator', f'{BM}._execute_market_orders', 'jesse.services.candle.split_candle',
              'jesse.models.Order.Order.is_active']
@@ -301,7 +301,10 @@ def t_flush_drains(h):
         o.f['execute'] = Builtin('execute', mk(j))
     reg.f['to_execute'].append(ms[0])
     h.cover('flush.drains.pre')
-    out = h.method_outcome(reg, 'execute_pending_market_orders')
+    # through the simulator's own entry point (a contracted call in the loop harnesses)
+    store = Obj(None, {'orders': reg}, name='store')
+    h.ctx.cfg.globals[f'{BM}.store'] = lambda i: store
+    out = h.outcome(f'{BM}._execute_market_orders')
     h.prove(out.ok, 'flush.drains.no-exception', {'raised': out.exc})
     h.prove(len(trace) == 3 and all(trace[j] is ms[j] for j in range(len(trace))),
             'flush.market-order-queued-during-the-flush-is-executed-by-the-same-flush', {'executed': [o.name for o in trace]})
